@@ -427,8 +427,28 @@ def rule_cmpdir(ctx: Ctx, rule: str = "R-CMPDIR") -> None:
         got_cls, maximize = table[mode]
         ctx.check(got_cls == cname, rule, "_get_matching_module", f"{mode}:class", f"mode {mode} is scored with {got_cls}, expected {cname}", fi=fi_mod)
         op, none_false, fi = is_better_than_op(ctx, cname)
-        ctx.require(op is not None, f"{cname}.is_better_than: not a single comparison of self.value with the threshold")
         want = BETTER[cname]
+        if op is None:
+            # not a single comparison: look at the polarity with which the threshold occurs (E8)
+            thr = fi.params()[0].arg
+            neg = []
+            for p in enum_paths(ctx, fi, bool_returns=True):
+                if p.exit and p.exit[0] == "raise" or p.facts.get("none:self.value") is True:
+                    continue
+                for k in p.facts:
+                    if not k.startswith("cmp:") or thr not in k or "self.value" not in k:
+                        continue
+                    lhs, _, rhs = k[4:].partition(" <")
+                    thr_left = thr in lhs
+                    # distance modes: looser = larger threshold, the threshold must be an UPPER bound of the score
+                    if (want == "<" and thr_left) or (want == ">" and not thr_left):
+                        neg.append(k[4:])
+            if neg:
+                ctx.violate(rule, f"{cname}.is_better_than", "polarity",
+                            f"{cname}.is_better_than also uses the threshold as a {'lower' if want == '<' else 'upper'} bound of the score (`{neg[0]}`): loosening the threshold can turn a match into a non-match",
+                            fi=fi, expected=f"self.value {want} threshold_value", found=neg[0])
+                continue
+        ctx.require(op is not None, f"{cname}.is_better_than: not a single comparison of self.value with the threshold")
         ctx.check(op == want, rule, f"{cname}.is_better_than", "direction",
                   f"{cname}.is_better_than compares `self.value {op} threshold`; {'a smaller distance' if want == '<' else 'a larger IoU'} is better, and the comparison is strict (`{want}`)",
                   fi=fi, expected=f"self.value {want} threshold_value", found=f"self.value {op} threshold_value", sample={"class": cname, "op": op})
